@@ -21,8 +21,7 @@ def record(variant, parts, ck, wd, tag):
     lines = []
     for part in parts:
         outp = os.path.join(wd, '%s_%s.ndjson' % (tag, part))
-        vlib.sh([exe, '--seed', str(ck.seed), '--tier', ck.tier, '--part', part, '--out', outp], timeout=1800)
-        lines += [l for l in open(outp).read().splitlines() if l]
+        lines += vlib.run_harness([exe, '--seed', str(ck.seed), '--tier', ck.tier, '--part', part, '--out', outp], outp, timeout=1800)
         os.remove(outp)
     return lines
 
@@ -36,7 +35,7 @@ def run():
     ck.add_model('MCIsa', r, 'all 256 opcodes x 9x9 dst/src bytes x 33 mod bytes (every mem/shift/cond value) x 12 immediate classes: structural facts of the decode result; literal opcode table = frequencies')
     if not r['ok']:
         ck.violation('model:MCIsa', 'instruction-set definition is inconsistent', vlib.tlc_error_summary(r['out'], 40))
-    lines = record('verif', ['steps', 'fp'], ck, wd, 'isa')
+    lines = record('verif', ['steps', 'mulgrid', 'fp'], ck, wd, 'isa')
     res = vlib.validate_sharded('TraceIsa', 'TraceIsa.cfg', lines, 'c05', shards=16, timeout=3000)
     ck.add_traces('TraceIsa', res, 'instruction words decoded and executed by the real BytecodeMachine from recorded states; host IEEE operations in all rounding modes')
     ck.reject('TraceIsa', res, key_of)
